@@ -53,6 +53,7 @@ type ZNHolder struct {
 	N     ZNName
 	R     ZNRatio
 	PT    *ZNTags
+	U     uint64
 }
 
 var znTags = ZNTags{"a", "b", "c"}
@@ -63,13 +64,14 @@ func c08NamedContext() pongo2.Context {
 	d := ZNDur(90)
 	n := ZNName("bob")
 	ra := ZNRatio(0.25)
-	h := ZNHolder{Tags: tags, Count: cnt, D: d, N: n, R: ra, PT: &tags}
+	u := uint64(1)<<63 + 5 // beyond the range of every signed integer type
+	h := ZNHolder{Tags: tags, Count: cnt, D: d, N: n, R: ra, PT: &tags, U: u}
 	return pongo2.Context{
-		"tags": tags, "count": cnt, "d": d, "n": n, "r": ra,
-		"ptags": &tags, "pcount": &cnt, "pd": &d, "pn": &n, "pr": &ra,
+		"tags": tags, "count": cnt, "d": d, "n": n, "r": ra, "u": u,
+		"ptags": &tags, "pcount": &cnt, "pd": &d, "pn": &n, "pr": &ra, "pu": &u,
 		"h": h, "ph": &h,
-		"m":  map[string]any{"tags": tags, "count": cnt, "d": d, "n": n, "r": ra, "ptags": &tags},
-		"l":  []any{tags, cnt, d, n, ra, &tags},
+		"m":  map[string]any{"tags": tags, "count": cnt, "d": d, "n": n, "r": ra, "ptags": &tags, "u": u},
+		"l":  []any{tags, cnt, d, n, ra, u, &tags},
 		"sa": "-", "i2": 2,
 	}
 }
@@ -86,8 +88,8 @@ type c08Named struct {
 }
 
 func (cs *c08Named) base() (string, bool) {
-	field := map[string]string{"tags": "Tags", "count": "Count", "d": "D", "n": "N", "r": "R"}[cs.Typ]
-	pos := map[string]int{"tags": 0, "count": 1, "d": 2, "n": 3, "r": 4}[cs.Typ]
+	field := map[string]string{"tags": "Tags", "count": "Count", "d": "D", "n": "N", "r": "R", "u": "U"}[cs.Typ]
+	pos := map[string]int{"tags": 0, "count": 1, "d": 2, "n": 3, "r": 4, "u": 5}[cs.Typ]
 	switch cs.Reach {
 	case "top":
 		return cs.Typ, true
@@ -115,6 +117,8 @@ func (cs *c08Named) source() (string, bool) {
 	switch cs.Op {
 	case "print":
 		return "{{ " + b + " }}", true
+	case "concat":
+		return `{{ "=" + ` + b + ` }}`, true
 	case "length":
 		return "{{ " + b + "|length }}", true
 	case "index":
@@ -174,8 +178,20 @@ func (cs *c08Named) want() (string, bool, bool) {
 			return "bob", false, true
 		case "r":
 			return "0.250000", false, true
+		case "u":
+			return "9223372036854775813", false, true
 		}
 		return "", false, false // the printed form of lists and maps is not the subject
+	case "concat":
+		switch cs.Typ {
+		case "u":
+			return "=9223372036854775813", false, true
+		case "d":
+			return "=90", false, true
+		case "n":
+			return "=bob", false, true
+		}
+		return "", false, false
 	case "length":
 		switch cs.Typ {
 		case "tags":
@@ -287,9 +303,9 @@ func checkC08Named(c any, r *Rec) error {
 
 var _ = register(&propSpec{
 	ID:   "C08.named",
-	Rule: "values of named non-struct types (a named []string, map[string]int, int64, string and float64, each with value-receiver methods) placed in the context directly, behind a pointer, in an exported struct field (struct by value and by pointer; also a pointer field), in a map[string]any and in a []any; accessed by method name (without arguments, with () and with literal / context-name arguments of the right and of the wrong number or type), by index / key (dot and subscript, present and missing), printed and measured with |length. Reference: a table of the methods' signatures and results; wrong calls must be execution errors, missing keys / indexes empty. Rendered twice. Non-trivial: a method access; distinct by source.",
+	Rule: "values of named non-struct types (a named []string, map[string]int, int64, string and float64, each with value-receiver methods; also a plain uint64 beyond the range of the signed types, printed and concatenated) placed in the context directly, behind a pointer, in an exported struct field (struct by value and by pointer; also a pointer field), in a map[string]any and in a []any; accessed by method name (without arguments, with () and with literal / context-name arguments of the right and of the wrong number or type), by index / key (dot and subscript, present and missing), printed and measured with |length. Reference: a table of the methods' signatures and results; wrong calls must be execution errors, missing keys / indexes empty. Rendered twice. Non-trivial: a method access; distinct by source.",
 	Gen: func(t *rapid.T) any {
-		cs := &c08Named{Reach: pick(t, "reach", []string{"top", "ptr", "holder", "pholder", "map", "list", "holderptr"}), Typ: pick(t, "typ", []string{"tags", "count", "d", "n", "r"})}
+		cs := &c08Named{Reach: pick(t, "reach", []string{"top", "ptr", "holder", "pholder", "map", "list", "holderptr"}), Typ: pick(t, "typ", []string{"tags", "count", "d", "n", "r", "u"})}
 		if cs.Reach == "holderptr" {
 			cs.Typ = "tags"
 		}
@@ -301,12 +317,16 @@ var _ = register(&propSpec{
 		}
 		switch drawInt(t, 0, 5, "opk") {
 		case 0:
-			cs.Op = pick(t, "plain", []string{"print", "length"})
+			cs.Op = pick(t, "plain", []string{"print", "length", "concat"})
 		case 1:
 			cs.Op, cs.Idx, cs.Sub = "index", drawInt(t, 0, 4, "idx"), drawBool(t, "sub")
 		case 2:
 			cs.Op, cs.Key, cs.Sub = "key", pick(t, "key", []string{"x", "y", "zz", "Totals"}), drawBool(t, "sub")
 		default:
+			if len(ms) == 0 {
+				cs.Op = pick(t, "plain2", []string{"print", "concat"})
+				break
+			}
 			cs.Op = pick(t, "method", ms)
 			sig := c08NamedMethods[cs.Typ][cs.Op]
 			n := len(sig)
